@@ -325,7 +325,9 @@ fn generated(cfg: &RunCfg) -> Outcome {
         input.push(gen::below(256) as u8);
     }
     let whole = gen::ratio(1, 2);
-    let thorough = cfg.tier == Tier::Thorough;
+    // the exhaustive double-split / every-prefix sweep costs ~10^4 executions per input: it is
+    // applied to one input in eight in the thorough tier
+    let thorough = cfg.tier == Tier::Thorough && cfg.index % 8 == 0;
     // end-of-stream offsets
     let mut ends: Vec<usize> = vec![input.len()];
     if input.len() <= if thorough { 256 } else { 48 } {
@@ -564,7 +566,7 @@ pub fn spec() -> PropertySpec {
         level: "exploration",
         rule: "read_http_head / read_http_request over a scripted AsyncRead with FixedBuf<64|256|8192>. Inputs: heads derived from the RFC 7230 grammar (all tchar, obs-text, OWS variants, bare LF), 0-3 byte-level mutations, over-long heads around the buffer size, 0-64 leftover bytes; corpus stage: EVERY string of <= 6 symbols over {M, SP, /, :, CR, LF, 0x80, HTTP/1.1} (299,593 strings, with and without terminator). Schedules: every single split point (inputs <= 24 bytes; all double splits too in the thorough tier), 1-byte reads and tape-chosen partitions otherwise, spurious Pending; end of stream (EOF or read error) after every prefix for short inputs, at drawn offsets otherwise. Oracle: termination within a poll cap, no panic, documented error class, position-of-first-CRLFCRLF consumption model (nothing past the head consumed, leftover intact, HeadTooLong/Truncated/Disconnected classes), identical outcome and leftover under every partition. Sequence stage: 2-32 messages with padded heads (each smaller than the buffer) and bodies through ONE buffer: each must parse exactly as it does alone in a fresh buffer. Connection level: same bytes through the real connection task in the simulated server, FIN or RST at an offset: response-or-EOF, no task panic, slot returned. distinct = hash of input bytes; probe.executions counts individual reader executions.",
         scenarios: vec![
-            Scenario { name: "c01.generated", property: "C01", func: generated, runs_quick: 400_000, runs_thorough: 8_000_000, doc: "grammar + mutation" },
+            Scenario { name: "c01.generated", property: "C01", func: generated, runs_quick: 400_000, runs_thorough: 2_400_000, doc: "grammar + mutation" },
             Scenario { name: "c01.corpus", property: "C01", func: corpus, runs_quick: 299_593, runs_thorough: 299_593, doc: "exhaustive reduced alphabet" },
             Scenario { name: "c01.sequence", property: "C01", func: sequence, runs_quick: 60_000, runs_thorough: 2_000_000, doc: "several messages through one buffer" },
             Scenario { name: "c01.conn", property: "C01", func: conn_level, runs_quick: 100_000, runs_thorough: 3_000_000, doc: "connection task level" },
